@@ -1,6 +1,7 @@
 //! vp-engine: property-based testing / fuzzing engine for the listed properties of deb822-lossless.
 //! See /verif/DESIGN.md.
 pub mod evidence;
+pub mod fuzz;
 pub mod gen;
 pub mod known;
 pub mod props;
